@@ -333,7 +333,8 @@ func (priv *PrivateKey) inverseOfPrivateKeyPlus1(c *sm2Curve) (*bigmod.Nat, erro
 			}
 		}
 	})
-	if err != nil {
+	if err != nil || priv.inverseOfKeyPlus1 == nil {
+		// the cached value stays nil when the first calculation failed
 		return nil, errInvalidPrivateKey
 	}
 	return priv.inverseOfKeyPlus1, nil
